@@ -36,7 +36,7 @@ PROPS = {
 ESSENTIAL = {
     "C01_message": ["metachar-text", "two-or-more-extensions"], "C01_iq": ["metachar-text"], "C01_node": ["node-depth>=2"],
     "C02_stream": ["nested-same-name", "small-reads", "corrupt-truncate", "corrupt-flip"],
-    "C03_negotiation": ["expect-success", "resumable-state", "dev-unexpected", "dev-malformed", "dev-close", "websocket"],
+    "C03_negotiation": ["expect-success", "resumable-state", "dev-unexpected", "dev-malformed", "dev-close", "websocket", "client-write-fault"],
     "C04_tls": ["expect-auth-inside-tls", "reconnect", "cert-wronghost", "cert-expired"],
     "C05_inbound": ["segmented", "stanza>4KB", "client-ws-sm-on", "component-tcp-sm-off"],
     "C06_router": ["several-routes-accept", "no-route-accepts", "unhandled-iq-request", "first-match-not-first-route", "response-to-pending-request"],
@@ -99,7 +99,7 @@ TEXT = {
     "C03": dict(
         technique="fault-script enumeration + property-based generation (rapid) of negotiation scripts against a reference FSM; real Client against the scripted peer with real TLS",
         level_text="Fault enumeration: single faults {negotiation step} x {failure / stanza error incl. echoed payload, stream error, 8 unexpected elements, 5 malformed forms, 4 truncations, close, half-close} x {client configuration} are enumerated (completely in the thorough tier, a seed-selected 1/24 slice in the quick tier) and scripts with 0-2 deviations, success variants and resumable state from a real earlier connection are generated with rapid. A reference FSM decides the expected request sequence and outcome: Connect nil and one SessionEstablished event iff the server completed every mandatory step the client reaches, requests in FSM order and never beyond the fault, no request pending before the previous reply (one-directional look-ahead), bounded return time, no panic.",
-        level_note="TCP and (a quarter of the generated scripts) WebSocket framing, which has no STARTTLS step; the single-fault enumeration is TCP only. A silent server (no reply at all) is not in the property's fault alphabet and is not generated. When the server marks the session feature optional the model follows whether the client opened it. Connect-hang and slowness verdicts are confirmed by a re-run with 4x margins.",
+        level_note="TCP and (a quarter of the generated scripts) WebSocket framing, which has no STARTTLS step; the single-fault enumeration is TCP only. In a fifth of the generated TCP scripts the client's own write of auth / bind / session / enable fails in a wrapped Transport and counts as a fault at that step. A silent server (no reply at all) is not in the property's fault alphabet and is not generated. When the server marks the session feature optional the model follows whether the client opened it. Connect-hang and slowness verdicts are confirmed by a re-run with 4x margins.",
     ),
     "C12": dict(
         technique="crash-point enumeration: every byte offset of fixed inbound streams plus rapid-generated streams and offsets; real Client against the scripted peer; goroutine-dump and transcript oracles",
